@@ -78,7 +78,7 @@ def c12():
 
 
 def c20():
-    imports = ("SetupKeys Setup SetupProofs")
+    imports = ("SetupKeys Setup SetupProofs RaiseSites RaiseSitesReviewed RaiseSitesProofs")
     items = [
         ("C20_even_num_y_rejected", "even_num_y_rejected", "generate_mesh"),
         ("C20_unknown_wing_type_rejected", "unknown_wing_type_rejected", None),
@@ -96,6 +96,8 @@ def c20():
         ("C20_wrong_length_section_lists_rejected", "wrong_length_section_lists_rejected", "multi-section surfaces, any number of sections"),
         ("C20_right_length_section_lists_accepted", "right_length_section_lists_accepted", None),
         ("C20_asymmetric_sections_need_root", "asymmetric_sections_need_root", None),
+        ("C20_rejection_guards_are_the_reviewed_ones", "raise_sites_reviewed", "translator tie: every raise statement of the package with the chain of conditions guarding it, REGENERATED from /repo on every run, equals the list the decision model was written from (Model/RaiseSitesReviewed.v); any edit of a guard breaks this obligation"),
+        ("C20_parity_guard_does_not_depend_on_symmetry_or_wing_type", "parity_guard_alone", None),
     ]
     gen("C20.v", "C20 - invalid set-ups are rejected loudly; valid ones are accepted; unknown keys warn.  Property theorems only (Real/SetupProofs.v over Model/Setup.v and the generated key lists)", imports, items)
 
